@@ -336,11 +336,8 @@ def classify_wire(value):
         r, c, s = value
     except (TypeError, ValueError):
         return 'nt'
-    try:
-        d = dict(s)
-    except (TypeError, ValueError):
-        d = None
-    st = 'nodict' if d is None else enc_data(d)       # enc_data raises on values outside the protocol's domain
+    # since fix f6dc9a1 the state must be a mapping (`isinstance(sval, dict)`), anything else is malformed
+    st = enc_data(s) if isinstance(s, dict) else 'nodict'       # enc_data raises on values outside the protocol's domain
     return [classify_fld(r), classify_fld(c), st]
 
 
@@ -368,15 +365,6 @@ def py_to_wire(value):
     def state(x):
         if isinstance(x, dict):
             return enc_data(x)
-        if isinstance(x, list):
-            d = {}
-            for it in x:
-                if not (isinstance(it, list) and len(it) == 2 and isinstance(it[0], str)):
-                    return 'nodict'
-                d[it[0]] = it[1]
-            return enc_data(d)
-        if isinstance(x, str) and x == '':
-            return []
         return 'nodict'
     return [fld(a), fld(b), state(c)]
 
@@ -401,7 +389,7 @@ def well_formed_payload(value):
 
 
 def non_mapping_state(value):
-    """F-C10c class: three fields, stamps `float()` accepts, state NOT a mapping"""
+    """the class of the repaired defect F-C10c: three fields, stamps `float()` accepts, state NOT a mapping"""
     if not (isinstance(value, (list, str, dict)) and len(value) == 3):
         return False
     a, b, c = list(value)
@@ -695,7 +683,7 @@ def judge(case, rn):
                 a, b, c = list(value)
                 wire_meta = {'end_data': enc_data(c), 'created': classify_fld(b), 'stamp': classify_fld(a)}
             else:
-                finding = 'F-C10c' if non_mapping_state(value) else None
+                finding = None          # F-C10c (non-mapping state) is repaired (f6dc9a1): no tolerance
                 st = obs['start']
                 if obs['loadRaised']:
                     bad(i, 'request.session raised %s on the deserialised value %s' % (obs['loadRaised'], json.dumps(value)[:80]),
@@ -1115,7 +1103,7 @@ def fails_unknown(case):
         return False
 
 
-KNOWN = {'F-C10a', 'F-C10b', 'F-C10c'}
+KNOWN = {'F-C10a', 'F-C10b'}
 
 
 def shrink_case(case, pred):
